@@ -30,6 +30,7 @@ pub fn sections(ctx: &Ctx) -> Vec<(&'static str, u64)> {
         ("corpus-crlf", w1),
         ("trivia", trivia * ctx.scale),
         ("corpus-trivia", w1),
+        ("corpus-type", w1),
     ]
 }
 
@@ -308,6 +309,26 @@ pub fn cases(ctx: &Ctx, section: &str, unit: u64) -> Vec<Case> {
                     fss: vec![ctx.corpus.trees[e.tree].clone()],
                     execs: vec![ExecSpec::single(key(&mut rng), STACK_MAIN, sc.task.clone())],
                     params: Json::obj().with("variant_seed", Json::u(rng.next_u64() >> 12)),
+                });
+            }
+        }
+        "corpus-type" => {
+            let scs = w1_scenarios(&ctx.corpus, false);
+            let sc = &scs[unit as usize];
+            let e = &ctx.corpus.entries[sc.entry];
+            let mut rng = ctx.rng().sub_n(section, unit);
+            let n = if ctx.tier == Tier::Quick { 2 } else { 12 };
+            for k in 0..n {
+                out.push(Case {
+                    check: "C14".into(),
+                    kind: "diag-corpus-type".into(),
+                    label: format!("{}+gadget#{k}", sc.label),
+                    fss: vec![ctx.corpus.trees[e.tree].clone()],
+                    execs: vec![ExecSpec::single(key(&mut rng), STACK_MAIN, sc.task.clone())],
+                    params: Json::obj()
+                        .with("file_index", Json::u(rng.below(1000)))
+                        .with("gadget", Json::u(rng.below(6)))
+                        .with("variant_seed", Json::u(rng.next_u64() >> 12)),
                 });
             }
         }
@@ -762,6 +783,77 @@ pub fn judge(case: &Case, rep: &mut Report) {
                 .collect();
             // insert at the very top of the including file: above every directive of it
             metamorphic(case, &fex, &d, &r.text, &parent, 0, &earlier, rep);
+        }
+        "diag-corpus-type" => {
+            // a type error appended to one of the files a real shader tree loads: the diagnostic
+            // must name that file and the line the simulator wrote it on
+            let base = run_single(case, ex, rep);
+            if base.kind != OutcomeKind::Ok {
+                rep.count("corpus_type_not_judged_base_not_ok", 1);
+                return;
+            }
+            let mut files: Vec<String> = Vec::new();
+            for e in &base.events {
+                if let Some(c) = &e.resolved
+                    && !files.contains(c)
+                {
+                    files.push(c.clone());
+                }
+            }
+            if files.is_empty() {
+                return;
+            }
+            let fi = case.params.gu("file_index") as usize % files.len();
+            let f = files[fi].clone();
+            let Some(content) = case.fss[task.fs].files.get(&f) else {
+                return;
+            };
+            let (gadget, err_line, err_col): (&str, u32, u32) = match case.params.gu("gadget") {
+                0 => ("static const int zz_g0 = zz_err_undeclared ;", 0, 26),
+                1 => ("static const int zz_err_dup = 1 ;\n\nstatic const int zz_err_dup = 2 ;", 2, 18),
+                2 => ("void zz_fn ( ) {\nint zz_err_local = 1 ;\n  int zz_err_local = 2 ;\n}", 2, 7),
+                3 => ("void zz_fn2 ( ) {\nint zz_ok = 1 ;\nzz_ok = zz_err_unknown ;\n}", 2, 9),
+                4 => ("struct zz_S {\nint zz_err_m ;\nfloat zz_err_m ;\n} ;", 2, 7),
+                _ => ("int zz_callee ( int zz_p ) { return zz_p ; }\nstatic const int zz_g7 = zz_callee ( 1 ,\n    zz_err_extra ) ;", 2, 5),
+            };
+            let first_line = content.matches('\n').count() as u32 + 2;
+            let mut gx = ex.clone();
+            gx.threads[0].tasks[0].faults.push(
+                Fault::new(FaultKind::Append, Sel::File(f.clone())).text(&format!("\n{gadget}\n")),
+            );
+            let r = run_single(case, &gx, rep);
+            if r.kind == OutcomeKind::Panic {
+                rep.findings.push(finding("panic", &r.panic_site, format!("{}: {}", case.label, r.text)));
+                return;
+            }
+            rep.count("corpus_gadgets_planted", 1);
+            let want_line = first_line + err_line;
+            match parse_diag(&r.text) {
+                Some(d) if d.file == f && d.line == want_line && d.col == err_col => {
+                    if fi > 0 {
+                        rep.nontrivial.insert(digest);
+                    }
+                    let pos = base.events.iter().position(|e| e.resolved.as_deref() == Some(f.as_str())).unwrap_or(0);
+                    let earlier: Vec<String> = base.events[..pos]
+                        .iter()
+                        .filter_map(|e| e.resolved.clone())
+                        .collect();
+                    metamorphic(case, &gx, &d, &r.text, &f, 0, &earlier, rep);
+                }
+                other => {
+                    rep.findings.push(finding(
+                        "diagnostic-position",
+                        "wrong-file-or-line",
+                        format!(
+                            "{}: type error appended to {f} at line {want_line} column {err_col} is reported as {:?}",
+                            case.label,
+                            other
+                                .map(|d| format!("{}:{}:{} {}", d.file, d.line, d.col, d.rest.lines().next().unwrap_or("").to_string()))
+                                .unwrap_or_else(|| r.text.lines().take(2).collect::<Vec<_>>().join(" | "))
+                        ),
+                    ));
+                }
+            }
         }
         "diag-trivia" => {
             // whitespace, comments and splices inserted at token boundaries of every file must
